@@ -62,9 +62,11 @@ def rstring(r, big=False):
 
 
 class Gen:
-    def __init__(self, r, tables, unions, maxdepth=5, big=False, share=0.15):
+    def __init__(self, r, tables, unions, maxdepth=5, big=False, share=0.15, nested_ws=0.0, embed=0.0, nest_aligns=(0, 0, 0, 8, 16, 64)):
         self.r, self.tables, self.unions = r, tables, unions
         self.maxdepth, self.big, self.share = maxdepth, big, share
+        self.nested_ws, self.embed, self.nest_aligns = nested_ws, embed, nest_aligns
+        self.budget = 120      # tables per tree: beyond it only required heavy fields are generated
         self.pool = [[]]      # per open buffer: completed shareable nodes (strings, tables)
 
     def string(self):
@@ -85,7 +87,8 @@ class Gen:
         if shareable and cands and r.random() < self.share:
             return Node("r", target=r.choice(cands))
         fields = []
-        deep = depth >= self.maxdepth
+        self.budget -= 1
+        deep = depth >= self.maxdepth or self.budget <= 0
         fl = list(self.tables[ti])
         if r.random() < 0.3: r.shuffle(fl)          # call order need not follow ids
         for f in fl:
@@ -123,13 +126,23 @@ class Gen:
                     items.append((0, Node("N"), None) if m is None else (m["code"] & 0xff, self.member(m, depth + 1), m))
                 v = Node("W", items=items)
             elif k == "nt":
-                self.pool.append([])
-                root = self.table(f["a"], depth + 1, shareable=False)
-                self.pool.pop()
-                v = Node("B", ident=r.choice([None, None, b"NEST", bytes(r.randrange(1, 256) for _ in range(4))]),
-                         with_size=0, block_align=r.choice([0, 0, 0, 8, 16, 64]), root=root)
+                if r.random() < self.embed:
+                    # an existing buffer (from the independent encoder) embedded as nested buffer
+                    try:
+                        data, _, minal = fbenc.encode_table_root(r, [[x for x in fs if x["kind"] not in ("nt", "ns")] for fs in self.tables], self.unions, f["a"],
+                                                                 r.choice([None, b"EMBD"]), False, {})
+                    except RecursionError:
+                        continue
+                    exp, _ = decode_root(data, self.tables, self.unions, ("t", f["a"]), False, None, 1)
+                    v = Node("E", with_size=0, block_align=r.choice(self.nest_aligns), align=minal, data=data, root=("t", f["a"]), expect=exp)
+                else:
+                    self.pool.append([])
+                    root = self.table(f["a"], depth + 1, shareable=False)
+                    self.pool.pop()
+                    v = Node("B", ident=r.choice([None, None, b"NEST", bytes(r.randrange(1, 256) for _ in range(4))]),
+                             with_size=int(r.random() < self.nested_ws), block_align=r.choice(self.nest_aligns), root=root)
             elif k == "ns":
-                v = Node("B", ident=r.choice([None, b"NSTR"]), with_size=0, block_align=r.choice([0, 0, 32]),
+                v = Node("B", ident=r.choice([None, b"NSTR"]), with_size=int(r.random() < self.nested_ws), block_align=r.choice(self.nest_aligns),
                          root=Node("u", align=max(1, f["b"]), data=rbytes(r, f["a"])))
             fields.append((f, v))
         n = Node("T", ti=ti, fields=fields)
@@ -187,7 +200,8 @@ def canon(n):
     if k == "s": return ("s", n.data)
     if k == "v": return ("v", n.data[:len(n.data) - (len(n.data) % n.esz if n.esz else 0)])
     if k == "u": return ("st", n.data)
-    if k == "B": return ("nb", n.ident, canon(n.root))
+    if k == "B": return ("nb", n.ident, canon(n.root), bool(n.with_size))
+    if k == "E": return ("nb", None, n.expect, False)
     if k == "T":
         d = {}
         for (f, v) in n.fields:
@@ -343,17 +357,27 @@ class Dec:
                 d[i] = ("uv", items)
             elif k in ("nt", "ns"):
                 t = self.follow(a, "nested buffer"); n, data = self.vector(t, 1, 1)
-                sub = bytes(self.b[data:data + n])
                 root = ("t", f["a"]) if k == "nt" else ("st", f["a"], f["b"])
+                sub = bytes(self.b[data:data + n])
+                ws = False
                 try:
                     v, sd = decode_root(sub, self.tables, self.unions, root, False, None, 1)
-                except FormatError as e:
-                    raise FormatError("nested buffer at %d (extracted standalone): %s" % (data, e))
-                self.need(data % sd.seen_align == 0, "nested buffer content at %d needs alignment %d inside the parent" % (data, sd.seen_align))
+                    start = data
+                    self.need(data % sd.seen_align == 0, "nested buffer content at %d needs alignment %d inside the parent" % (data, sd.seen_align))
+                except FormatError as e1:
+                    # a nested buffer built with the size flag is consumed from its length field on (size-prefixed buffer)
+                    sub = bytes(self.b[data - 4:data + n]); ws = True
+                    try:
+                        v, sd = decode_root(sub, self.tables, self.unions, root, True, None, 1)
+                    except FormatError as e2:
+                        raise FormatError("nested buffer at %d (extracted standalone): %s | as size-prefixed: %s" % (data, e1, e2))
+                    start = data - 4
+                    self.need(start % sd.seen_align == 0, "size-prefixed nested buffer at %d needs alignment %d inside the parent" % (start, sd.seen_align))
                 self.seen_align = max(self.seen_align, sd.seen_align)
-                self.nested.append((data, n, sd, root))
-                self.nested.extend((data + a, b, c, e) for (a, b, c, e) in sd.nested)
-                d[i] = ("nb", sub[4:8] if struct.unpack_from("<I", sub, 0)[0] >= 8 else None, v)
+                self.nested.append((start, len(sub), sd, root, ws))
+                self.nested.extend((start + a, b, c, e, w) for (a, b, c, e, w) in sd.nested)
+                o = 4 if ws else 0
+                d[i] = ("nb", sub[o + 4:o + 8] if struct.unpack_from("<I", sub, o)[0] >= 8 else None, v, ws)
         for f in self.tables[ti]:
             if f["kind"] == "u" and f["req"]:
                 self.need(f["id"] in d, "required union %d absent" % f["id"])
@@ -416,5 +440,8 @@ def same(exp, got):
     if isinstance(exp, tuple) and exp[0] == "nb":
         if not (isinstance(got, tuple) and got[0] == "nb"): return "nested buffer expected"
         if exp[1] is not None and got[1] != exp[1]: return "nested identifier %r, expected %r" % (got[1], exp[1])
+        # a nested buffer built with the size flag may also decode from its root offset on (when that happens to be aligned);
+        # one built without it must not need the size-prefixed reading
+        if len(exp) > 3 and len(got) > 3 and got[3] and not exp[3]: return "nested buffer is only aligned when read as size-prefixed from its length field"
         return same(exp[2], got[2])
     return None if exp == got else "value %r, expected %r" % (got, exp)
